@@ -107,6 +107,19 @@ func vScenarioC19(rc *runCtx) {
 	os.MkdirAll(src, 0755)
 	os.MkdirAll(dst, 0755)
 	vWriteFile(filepath.Join(src, "up.bin"), []byte("file to upload with sz"))
+	// the chosen download path may not be a directory (any more): the session then ends like any other failure
+	badDst := ""
+	if !upload && tp.Bool("c19.baddst", 120) {
+		badDst = []string{"missing", "regular-file"}[tp.Draw("c19.baddstkind", 2)]
+		dst = filepath.Join(rc.dir, "dst-"+badDst)
+		if badDst == "regular-file" {
+			vWriteFile(dst, []byte("a file where the download directory should be"))
+		}
+		rc.fault("download-path-not-a-directory")
+	}
+	// the remote shell answers an Enter at once with a prompt (numbered, so that each can be looked for)
+	enters, probing := 0, false
+	var shellPrompts [][]byte
 
 	var helper *vHelper
 	helperStarts := 0
@@ -115,6 +128,12 @@ func vScenarioC19(rc *runCtx) {
 	w.Exec = func(req *verifsim.ExecRequest) (verifsim.ExecChild, error) {
 		if req.Name != "rz" && req.Name != "sz" {
 			return nil, fmt.Errorf("exec: %q: executable file not found in $PATH", req.Name)
+		}
+		// a child cannot be started in a working directory that is none (os/exec: chdir fails)
+		if req.Dir != "" {
+			if st, err := os.Stat(req.Dir); err != nil || !st.IsDir() {
+				return nil, fmt.Errorf("fork/exec %s: chdir %s: not a directory", req.Name, req.Dir)
+			}
 		}
 		helperStarts++
 		if helperStartAt < 0 {
@@ -209,6 +228,21 @@ func vScenarioC19(rc *runCtx) {
 		headerChunk = append(headerChunk, vZCancel...)
 	case 2:
 		headerChunk = append([]byte("rz: cannot open /dev/tty\r\n"), headerChunk...)
+	}
+	{
+		prev := up.OnWrite
+		up.OnWrite = func(l *verifsim.Link, d []byte) {
+			if prev != nil {
+				prev(l, d)
+			}
+			if probing || len(d) != 1 || d[0] != '\r' {
+				return
+			}
+			enters++
+			p := []byte(fmt.Sprintf("\r\nremote-shell-%d$ ", enters))
+			shellPrompts = append(shellPrompts, p)
+			w.Go("shell.prompt", nil, func() { down.Write(p) })
+		}
 	}
 	var lastServerOut time.Duration
 	serverDone := false
@@ -332,7 +366,11 @@ func vScenarioC19(rc *runCtx) {
 			rc.violate("helper", "C19:helper-twice", "the helper was started %d times for one session", helperStarts)
 			return
 		}
-		if haveFiles && helperStarts == 0 && ctrlC == 0 && serverKind != "cancels-early" {
+		if badDst != "" && helperStarts != 0 {
+			rc.violate("helper", "C19:helper-started-without-directory", "the download path is %s, yet rz was started", badDst)
+			return
+		}
+		if badDst == "" && haveFiles && helperStarts == 0 && ctrlC == 0 && serverKind != "cancels-early" {
 			rc.violate("helper", "C19:helper-not-started", "a genuine %s header did not start the helper (server %s)", map[bool]string{true: "upload", false: "download"}[upload], serverKind)
 			return
 		}
@@ -391,6 +429,16 @@ func vScenarioC19(rc *runCtx) {
 				rc.violate("cancel", "C19:helper-not-cancelled", "the helper never wrote anything and never exited, yet it was neither sent the cancel sequence nor killed")
 				return
 			}
+		}
+	}
+	// the Enter the client types for a fresh prompt when it hands the terminal back: what the shell answers to
+	// it is shown (a second Enter now and then is harmless and not judged)
+	probing = true
+	rc.res.Scenario["enters_typed_by_client"] = enters
+	for i, p := range shellPrompts {
+		if !bytes.Contains(termAll, bytes.TrimLeft(p, "\r\n")) {
+			rc.violate("handback", "C19:prompt-after-enter-swallowed", "the remote shell answered the client's Enter at once with prompt %d, which never reached the terminal (case %s): terminal tail %s", i+1, rc.res.ClassKey, vQuote(vTail(termAll, vMax0(len(termAll)-100)), 110))
+			return
 		}
 	}
 	// hand-back: typed input flows again, and remote output is shown
